@@ -10,6 +10,7 @@ CONSTANTS Fam,        \* family of cases: "base" "unary" "binary" "ctor"
           Thorough,   \* BOOLEAN: larger pools
           NParts, Part, \* this run handles the cases with index = Part (mod NParts)
           Seed,       \* varies the coefficients
+          Mut,        \* 0; negative controls: 1 = tensor_product with operands exchanged, 2 = boundary takes the opposite side
           MaxD        \* 2: Hessians everywhere possible; 1: fallback without Hessians (32-bit overflow of the exact arithmetic)
 
 VARIABLE cid
@@ -77,7 +78,7 @@ DiffObj(G, ax) ==
   IN [G EXCEPT !.kvs[ax] = SubSeq(kv, 2, Len(kv) - 1), !.ps[ax] = p - 1,
                !.C = Tab(Len(G.C), LAMBDA c : Tab(Len(mid), LAMBDA I : co(G.C[c], I)))]
 
-BaseDecl(G, grid, S) ==
+BaseDecl(G, grid, S, md) ==
   LET D == SDim(G) IN
   IF IsNurbs(G)
   THEN \* the quotient is the function with G w = N; equal weights reduce a NURBS to the B-spline of its control points
@@ -87,14 +88,14 @@ BaseDecl(G, grid, S) ==
        /\ LET U == MkNurbs(G.kvs, G.dens, G.ps, G.osh, Ctrl(G), Tab(GN(G), LAMBDA I : Q(3, 2)))
               B == MkBsp(G.kvs, G.dens, G.ps, G.osh, Ctrl(G))
               g1 == Tab(D, LAMBDA a : <<grid[a][(Len(grid[a]) + 1) \div 2]>>)
-              SU == Sheet(U, g1)  SB == Sheet(B, g1)
+              SU == SheetD(U, g1, md)  SB == SheetD(B, g1, md)
           IN SU.val = SB.val /\ SU.jac = SB.jac /\ SU.hess = SB.hess
   ELSE \* Jacobian / Hessian = values of the derivative splines (difference coefficients, degree p - 1)
        /\ \A b \in 1..D : LET ax == D - b + 1 IN
             G.ps[ax] >= 1 =>
-              LET dG == DiffObj(G, ax)  Sd == Sheet(dG, grid) IN
+              LET dG == DiffObj(G, ax)  Sd == SheetD(dG, grid, 1) IN
               /\ Sd.val = S.jac[b]
-              /\ \A b2 \in 1..D : Sd.jac[b2] = S.hess[HessIndex(D, b, b2)]
+              /\ md >= 2 => \A b2 \in 1..D : Sd.jac[b2] = S.hess[HessIndex(D, b, b2)]
        /\ \A b \in 1..D : G.ps[D - b + 1] = 0 => \A c \in 1..Len(G.C) : \A J \in 1..S.npts : IsZero(S.jac[b][c][J])
 
 (* exact circle predicates that avoid squaring large numerators (32-bit integers): with s = tan(phi/2) = y/(r+x),
@@ -120,7 +121,7 @@ LinearDecl(S, Sa, nc, f(_, _, _)) ==     \* every derivative of the result = f(d
 Decl(r, G, grid, S, md) ==
   LET D == SDim(G)  nc == Len(G.C)  np == S.npts
       Sh(X, g) == SheetD(X, g, md) IN
-  CASE r.op = "obj" -> BaseDecl(G, grid, S)
+  CASE r.op = "obj" -> BaseDecl(G, grid, S, md)
     [] r.op = "translate" ->
          LET Sa == Sh(Build(r.a), grid) IN
          /\ \A c \in 1..nc : \A J \in 1..np : S.val[c][J] = Add(Sa.val[c][J], ArgAt(r.arg, c))
@@ -243,7 +244,7 @@ BaseCases ==
   LET combos == SeqProd2(BaseSels, SeqProd2(BaseOshs, Kinds))
       ok(x)  == x[2][2] = "bsp" \/ Len(x[2][1]) <= 1
       sel    == SelectSeq(combos, ok)
-  IN Tab(Len(sel), LAMBDA i : [recipe |-> Leaf(sel[i][2][2], sel[i][1], sel[i][2][1], i), gm |-> GridModeFor(Len(sel[i][1]))])
+  IN Tab(Len(sel), LAMBDA i : [recipe |-> Leaf(sel[i][2][2], sel[i][1], sel[i][2][1], i), gm |-> "x"])
 
 (* unary operations on an operand space `sel`; sd varies the coefficients *)
 Half == Q(1, 2)
@@ -374,11 +375,18 @@ Spec == Init /\ [][Next]_cid
 ResDesc(G) == [kind |-> G.kind, sdim |-> SDim(G), osh |-> G.osh, kvs |-> G.kvs, dens |-> G.dens, ps |-> G.ps,
                support |-> SupportOf(G)]
 
+MutBuild(r) ==      \* wrong control-net models (negative controls: CaseOK must reject them)
+  IF Mut = 1 /\ r.op = "tp" THEN TensorProduct(AsVector(Build(r.b)), AsVector(Build(r.a)))
+  ELSE IF Mut = 2 /\ r.op = "boundary" THEN Boundary(Build(r.a), r.ax, 1 - r.side)
+  ELSE Build(r)
+
 CaseOK ==
   cid # 0 =>
   LET cs   == Cases[cid]
-      G    == Build(cs.recipe)
-      grid == GridFor(G, IF cs.gm # "x" THEN cs.gm ELSE IF SDim(G) = 2 /\ IsNurbs(G) THEN "h" ELSE GridModeFor(SDim(G)))
+      G    == IF Mut = 0 THEN Build(cs.recipe) ELSE MutBuild(cs.recipe)
+      grid == GridFor(G, IF cs.gm # "x" THEN cs.gm
+                             ELSE IF IsNurbs(G) /\ (SDim(G) = 2 \/ \E a \in 1..SDim(G) : G.ps[a] >= 3) THEN "h"   \* (32-bit rationals)
+                             ELSE GridModeFor(SDim(G)))
       md   == IF ("md" \in DOMAIN cs /\ cs.md = 1) \/ (Fam # "base" /\ SDim(G) = 3 /\ IsNurbs(G)) THEN 1 ELSE MaxD
       S    == SheetD(G, grid, md)
   IN /\ WellFormed(G)
